@@ -21,6 +21,9 @@ func init() {
 		ruleConsts(r, "C03.CONST", map[string]string{"K1": "1.2", "B": "0.75"})
 		rulePipeline(r, "C03.PIPE", k.Execute, k.Single, "text")
 		ruleTextRemoveMarks(r, "C03.REMOVE", k)
+		ruleTextRevive(r, k)
+		ruleAggregations(r, "C03")
+		ruleLimitAutocut(r, "C03")
 		r.FloorCheck("C03.ADM", 3)
 		r.FloorCheck("C03.STATS", 6)
 		r.FloorCheck("C03.HEAP", 5)
